@@ -1,5 +1,5 @@
 #!/bin/bash
-# usage: work/roundstored.sh <suffix letter>   own-property quick check against every stored seed of that round, 3 at a time
+# usage: tools/roundstored.sh <suffix letter>   own-property quick check against every stored seed of that round, 3 at a time
 L=$1; cd /verif; mkdir -p work/seed_res
 ls seeded | grep -- "-$L$" | xargs -P 3 -I{} bash -c 'id={}; pid=${id%%-*}; ./seedtest2.sh seeded/$id/patch.diff $pid quick > work/seed_res/$id.txt 2>&1'
 for id in $(ls seeded | grep -- "-$L$"); do echo "== $id viol=$(grep -c VIOLATION work/seed_res/$id.txt) $(grep exit= work/seed_res/$id.txt) nofail=$(grep -c no-failing-input work/seed_res/$id.txt)"; done
